@@ -314,10 +314,9 @@ def run(ctx):
     ctx.tlc(d, "MCIdx", "MCIdxB.cfg", workers=4, must_hold=False, timeout=600)
     ctx.notes["index_cache_design"] = ("with an exact comparison the cached tree always holds the points it is queried for; with an "
                                        "np.allclose-like comparison TLC finds the stale-index history (expected counterexample)")
-    cases = gen_cases(ctx, 5, 2, 0 if not quick else 14, ctx.seed, ks="{0,1,2}") if not quick else \
-        gen_cases(ctx, 5, 2, 14, ctx.seed)
-    cases += gen_cases(ctx, 5, 3, 8 if quick else 40, ctx.seed + 1)
-    rows_per_case = 5 if quick else 16
+    cases = gen_cases(ctx, 5, 2, 14 if quick else 25, ctx.seed)
+    cases += gen_cases(ctx, 5, 3, 8 if quick else 25, ctx.seed + 1)
+    rows_per_case = 5 if quick else 8
     items = [(c, n, ctx.tier, rows_per_case) for n, c in enumerate(cases)]
     pmap(ctx, replay_case, items, chunk=4)
     ctx.traces += len(items)
